@@ -56,8 +56,14 @@ int _vnadata_convert_to_fz0(vnadata_internal_t *vdip)
 			free((void *)clfpp);
 			return -1;
 		    }
+		    /*
+		     * Rows beyond the current number of frequencies must
+		     * keep the initial value.
+		     */
 		    for (int port = 0; port < vdip->vdi_p_allocation; ++port) {
-			clfpp[findex][port] = vdip->vdi_z0_vector[port];
+			clfpp[findex][port] =
+			    (findex < vdip->vdi_vd.vd_frequencies) ?
+			    vdip->vdi_z0_vector[port] : VNADATA_DEFAULT_Z0;
 		    }
 		}
 	    }
